@@ -2,6 +2,296 @@
 From PG Require Import Lib.Strs Model.Streaming.
 From Coq Require Import Lia.
 
+(* ====================== A. the splitlines scanner ====================== *)
+Lemma is_nl_13 : is_nl 13 = true. Proof. reflexivity. Qed.
+Lemma is_nl_10 : is_nl 10 = true. Proof. reflexivity. Qed.
+
+Lemma sl_run_app : forall a b st,
+  sl_run st (a ++ b) =
+  let '(st1, o1) := sl_run st a in let '(st2, o2) := sl_run st1 b in (st2, o1 ++ o2).
+Proof.
+  induction a as [|c a IH]; intros b st; cbn [sl_run app].
+  - destruct (sl_run st b) as [st2 o2]. reflexivity.
+  - destruct (sl_step st c) as [st1 o1]. rewrite IH.
+    destruct (sl_run st1 a) as [st1' o1']. destruct (sl_run st1' b) as [st2 o2].
+    rewrite app_assoc. reflexivity.
+Qed.
+
+(* prefixing the current line with [p] only changes the first line that comes out (or the state, if none does) *)
+Definition glue (p : str) (r : slstate * list str) : slstate * list str :=
+  match snd r with
+  | [] => ((p ++ fst (fst r), snd (fst r)), [])
+  | l :: ls => (fst r, (p ++ l) :: ls)
+  end.
+
+Lemma sl_step_glue : forall p cur cr c, sl_step (p ++ cur, cr) c = glue p (sl_step (cur, cr) c).
+Proof.
+  intros p cur cr c. unfold sl_step, glue.
+  destruct cr; destruct (c =? 10); destruct (c =? 13); destruct (is_nl c); cbn; rewrite ?app_assoc; reflexivity.
+Qed.
+
+Lemma sl_run_glue : forall s p cur cr, sl_run (p ++ cur, cr) s = glue p (sl_run (cur, cr) s).
+Proof.
+  induction s as [|c s IH]; intros p cur cr; cbn [sl_run].
+  - reflexivity.
+  - rewrite sl_step_glue. unfold str, slstate in *. destruct (sl_step (cur, cr) c) as [[cur1 cr1] o1] eqn:E1.
+    unfold glue at 1; cbn [fst snd]. destruct o1 as [|l ls].
+    + rewrite IH. cbn [app]. unfold str, slstate in *. destruct (sl_run (cur1, cr1) s) as [[cur2 cr2] o2].
+      unfold glue; cbn [fst snd app]. destruct o2; reflexivity.
+    + destruct (sl_run (cur1, cr1) s) as [[cur2 cr2] o2]. reflexivity.
+Qed.
+
+Lemma sl_run_snoc : forall s c st,
+  sl_run st (s ++ [c]) =
+  let '(st1, o1) := sl_run st s in let '(st2, o2) := sl_step st1 c in (st2, o1 ++ o2).
+Proof.
+  intros s c st. rewrite sl_run_app. destruct (sl_run st s) as [st1 o1]. cbn [sl_run].
+  destruct (sl_step st1 c) as [st2 o2]. rewrite app_nil_r. reflexivity.
+Qed.
+
+(* the state after a non-empty string, by its last character *)
+Lemma sl_run_last : forall s c,
+  let '(st, o) := sl_run ([], false) (s ++ [c]) in
+  (c = 13 -> exists y, st = (y, true)) /\
+  (c <> 13 -> is_nl c = true -> st = ([], false) /\ o <> []) /\
+  (is_nl c = false -> exists y, y <> [] /\ st = (y, false)).
+Proof.
+  intros s c. rewrite sl_run_snoc. destruct (sl_run ([], false) s) as [[x cr1] o1].
+  unfold sl_step. destruct (c =? 13) eqn:E13.
+  - apply N.eqb_eq in E13. subst c. change (13 =? 10) with false. rewrite is_nl_13.
+    destruct cr1; (split; [intros _; eexists; reflexivity | split; [congruence | discriminate]]).
+  - apply N.eqb_neq in E13. destruct (is_nl c) eqn:Enl.
+    + destruct cr1; destruct (c =? 10);
+        (split; [congruence | split; [intros _ _; split; [reflexivity | destruct o1; discriminate] | discriminate]]).
+    + assert (E10 : (c =? 10) = false).
+      { destruct (c =? 10) eqn:E; [apply N.eqb_eq in E; subst c; rewrite is_nl_10 in Enl; discriminate | reflexivity]. }
+      rewrite E10.
+      destruct cr1; (split; [congruence | split; [discriminate | intros _; eexists; split; [|reflexivity]]]).
+      * discriminate.
+      * destruct x; discriminate.
+Qed.
+
+Lemma sl_run_glue0 : forall s p cr, sl_run (p, cr) s = glue p (sl_run ([], cr) s).
+Proof. intros s p cr. rewrite <- (app_nil_r p) at 1. apply sl_run_glue. Qed.
+
+(* ====================== B. LineDecoder simulates the scanner ====================== *)
+Definition nonempty_all (buf : list str) : Prop := Forall (fun b => b <> []) buf.
+Definition ld_abs (st : ldstate) : slstate := (concat (fst st), snd st).
+
+Lemma match_cons : forall {A B} (l : list A) (x y : B),
+  l <> [] -> match l with [] => x | _ :: _ => y end = y.
+Proof. intros A B l x y H. destruct l; [contradiction | reflexivity]. Qed.
+
+Lemma strip_cr_spec : forall text1 : str,
+  let tcr2 := nonemptyb text1 && (last text1 0 =? 13) in
+  let text2 := if tcr2 then removelast text1 else text1 in
+  text1 = text2 ++ (if tcr2 then [13] else []) /\
+  (tcr2 = false -> forall s c, text2 = s ++ [c] -> c <> 13).
+Proof.
+  intros text1. destruct text1 as [|c init _] using rev_ind.
+  - cbn. split; [reflexivity|]. intros _ s c H. destruct s; discriminate.
+  - cbv zeta. rewrite last_last.
+    assert (Hn : nonemptyb (init ++ [c]) = true) by (destruct init; reflexivity).
+    rewrite Hn. cbn [andb]. destruct (c =? 13) eqn:E.
+    + apply N.eqb_eq in E; subst. rewrite removelast_last. split; [reflexivity | discriminate].
+    + split; [rewrite app_nil_r; reflexivity|].
+      intros _ s c' Hs. apply app_inj_tail in Hs. destruct Hs; subst. apply N.eqb_neq; assumption.
+Qed.
+
+Lemma ld_decode_sim : forall buf tcr text st' out,
+  nonempty_all buf ->
+  ld_decode (buf, tcr) text = (st', out) ->
+  sl_run (concat buf, tcr) text = (ld_abs st', out) /\ nonempty_all (fst st').
+Proof.
+  intros buf tcr text st' out Hinv H.
+  unfold ld_decode in H. cbv zeta in H.
+  assert (H1 : sl_run (concat buf, tcr) text = sl_run (concat buf, false) (if tcr then 13 :: text else text)).
+  { destruct tcr; [|reflexivity]. cbn [sl_run].
+    change (sl_step (concat buf, false) 13) with ((concat buf, true), @nil str).
+    unfold str, slstate in *. destruct (sl_run (concat buf, true) text). reflexivity. }
+  rewrite H1. clear H1.
+  destruct (strip_cr_spec (if tcr then 13 :: text else text)) as [Ht1 Hlast]. cbv zeta in Ht1, Hlast.
+  unfold str, slstate, ldstate in *.
+  remember (if tcr then 13 :: text else text) as text1 eqn:Etext1. clear Etext1.
+  remember (nonemptyb text1 && (last text1 0 =? 13)) as tcr2 eqn:Etcr2. clear Etcr2.
+  remember (if tcr2 then removelast text1 else text1) as text2 eqn:Etext2. clear Etext2.
+  subst text1.
+  destruct text2 as [|c init _] using rev_ind.
+  - inversion H; subst st' out. cbn [app fst]. destruct tcr2; (split; [reflexivity | exact Hinv]).
+  - rewrite match_cons in H by (destruct init; discriminate).
+    rewrite last_last in H. unfold splitlines in H.
+    rewrite sl_run_app, sl_run_glue0.
+    pose proof (sl_run_last init c) as HL.
+    unfold str, slstate, ldstate in *.
+    destruct (sl_run ([], false) (init ++ [c])) as [[y cr2] o2].
+    destruct HL as [HL13 [HLnl HLno]].
+    assert (Hstep13 : forall cur, sl_run (cur, false) (if tcr2 then [13] else []) = ((cur, tcr2), @nil (list N))).
+    { intros cur. destruct tcr2; reflexivity. }
+    assert (Hglue : match buf with
+                    | [] => o2 ++ sl_fin (y, cr2)
+                    | _ :: _ => (concat buf ++ hd [] (o2 ++ sl_fin (y, cr2))) :: tl (o2 ++ sl_fin (y, cr2))
+                    end = match o2 ++ sl_fin (y, cr2) with
+                          | [] => []
+                          | l :: ls => (concat buf ++ l) :: ls
+                          end \/ o2 ++ sl_fin (y, cr2) = []).
+    { destruct buf; [|destruct (o2 ++ sl_fin (y, cr2)); [right; reflexivity | left; reflexivity]].
+      left. destruct (o2 ++ sl_fin (y, cr2)); reflexivity. }
+    unfold str, slstate, ldstate in *.
+    destruct (N.eq_dec c 13) as [E13|E13].
+    + (* the text ended with "\r\r": the first of them is still in text2 *)
+      destruct (HL13 E13) as [y0 Ey]. inversion Ey; subst y0 cr2 c. clear HL13 HLnl HLno Ey.
+      rewrite is_nl_13 in H. cbn [negb andb sl_fin] in H. rewrite andb_false_r in H.
+      destruct tcr2; [|exfalso; eapply Hlast; [reflexivity | reflexivity | reflexivity]].
+      destruct Hglue as [Hglue|Hnil]; [|destruct o2; discriminate].
+      cbn [sl_fin] in Hglue. rewrite Hglue in H. clear Hglue.
+      inversion H; subst st' out. unfold ld_abs, glue; cbn [fst snd concat].
+      destruct o2 as [|l ls]; cbn [app fst snd]; (split; [reflexivity | constructor]).
+    + destruct (is_nl c) eqn:Enl.
+      * destruct (HLnl E13 eq_refl) as [Ey Ho2]. inversion Ey; subst y cr2. clear HL13 HLnl HLno Ey.
+        cbn [negb andb sl_fin] in H. rewrite andb_false_r in H. rewrite app_nil_r in *.
+        destruct Hglue as [Hglue|Hnil]; [|contradiction].
+        rewrite Hglue in H. clear Hglue. inversion H; subst st' out.
+        destruct o2 as [|l ls]; [contradiction|].
+        unfold ld_abs, glue; cbn [fst snd concat]. rewrite Hstep13. cbn [fst snd concat]. rewrite app_nil_r.
+        split; [reflexivity | constructor].
+      * destruct (HLno eq_refl) as [y0 [Hy0 Ey]]. inversion Ey; subst y0 cr2. clear HL13 HLnl HLno Ey.
+        assert (Hfin : sl_fin (y, false) = [y]) by (destruct y; [contradiction | reflexivity]).
+        rewrite Hfin in *. cbn [negb] in H. rewrite andb_true_r in H.
+        destruct o2 as [|l ls].
+        -- cbn [app length hd] in H. cbn [Nat.eqb] in H. inversion H; subst st' out.
+          unfold ld_abs, glue; cbn [fst snd]. rewrite Hstep13. cbn [fst snd]. rewrite concat_app. cbn [concat].
+          rewrite !app_nil_r. split; [reflexivity|].
+          apply Forall_app. split; [exact Hinv | constructor; [exact Hy0 | constructor]].
+        -- destruct Hglue as [Hglue|Hnil]; [|discriminate].
+          rewrite Hglue in H. clear Hglue.
+          assert (Hlen : (length ((l :: ls) ++ [y]) =? 1)%nat = false).
+          { rewrite app_length. cbn [length]. destruct (length ls); cbn; reflexivity. }
+          rewrite Hlen in H. cbn [app] in H.
+          change ((concat buf ++ l) :: ls ++ [y]) with (((concat buf ++ l) :: ls) ++ [y]) in H.
+          rewrite last_last, removelast_last in H. inversion H; subst st' out.
+          unfold ld_abs, glue; cbn [fst snd]. rewrite Hstep13. cbn [fst snd concat]. rewrite !app_nil_r.
+          split; [reflexivity | constructor; [exact Hy0 | constructor]].
+Qed.
+
+Lemma ld_fold_sim : forall ts buf tcr st' out,
+  nonempty_all buf ->
+  ld_fold (buf, tcr) ts = (st', out) ->
+  sl_run (concat buf, tcr) (concat ts) = (ld_abs st', out) /\ nonempty_all (fst st').
+Proof.
+  induction ts as [|t ts IH]; intros buf tcr st' out Hinv H; cbn [ld_fold concat] in *.
+  - inversion H; subst. split; [reflexivity | exact Hinv].
+  - destruct (ld_decode (buf, tcr) t) as [[buf1 tcr1] o1] eqn:E1.
+    destruct (ld_fold (buf1, tcr1) ts) as [st2 o2] eqn:E2.
+    inversion H; subst st' out. clear H.
+    destruct (ld_decode_sim _ _ _ _ _ Hinv E1) as [S1 I1]. cbn [fst] in I1.
+    destruct (IH _ _ _ _ I1 E2) as [S2 I2].
+    rewrite sl_run_app. unfold str, slstate, ldstate in *. rewrite S1. unfold ld_abs at 1. cbn [fst snd].
+    rewrite S2. split; [reflexivity | exact I2].
+Qed.
+
+Lemma ld_flush_fin : forall st, nonempty_all (fst st) -> ld_flush st = sl_fin (ld_abs st).
+Proof.
+  intros [buf tcr] Hinv. unfold ld_flush, sl_fin, ld_abs. cbn [fst snd] in *.
+  destruct tcr; [rewrite andb_false_r; reflexivity|]. rewrite andb_true_r.
+  destruct buf as [|b bs]; [reflexivity|]. cbn [nonemptyb negb].
+  inversion Hinv as [|? ? Hb _]; subst. destruct b; [contradiction | reflexivity].
+Qed.
+
+(* Theorem 1: the LineDecoder fed any sequence of text chunks (empty ones included) yields exactly
+   str.splitlines of their concatenation *)
+Theorem ld_chunk_independent : forall ts, ld_run ts = splitlines (concat ts).
+Proof.
+  intros ts. unfold ld_run, splitlines.
+  destruct (ld_fold ([], false) ts) as [st' out] eqn:E.
+  destruct (ld_fold_sim ts [] false st' out (Forall_nil _) E) as [S I].
+  cbn [concat] in S. unfold str, slstate, ldstate in *. rewrite S. rewrite ld_flush_fin by exact I. reflexivity.
+Qed.
+
+(* ====================== C. UTF-8 ====================== *)
+Lemma u_run_app : forall a b p,
+  u_run p (a ++ b) =
+  match u_run p a with
+  | None => None
+  | Some (p1, s1) => match u_run p1 b with
+                     | None => None
+                     | Some (p2, s2) => Some (p2, s1 ++ s2)
+                     end
+  end.
+Proof.
+  induction a as [|x a IH]; intros b p; cbn [u_run app].
+  - destruct (u_run p b) as [[p2 s2]|]; reflexivity.
+  - destruct (classify (p ++ [x])).
+    + rewrite IH. destruct (u_run [] a) as [[p1 s1]|]; [|reflexivity].
+      destruct (u_run p1 b) as [[p2 s2]|]; reflexivity.
+    + apply IH.
+    + reflexivity.
+Qed.
+
+Definition utf8_from (p : bytes) (bs : bytes) : option str :=
+  match u_run p bs with Some (p', s) => Some (s ++ u_flush p') | None => None end.
+
+Lemma text_chunker_concat : forall t, concat (text_chunker t) = t.
+Proof. destruct t; [reflexivity | cbn; rewrite app_nil_r; reflexivity]. Qed.
+
+Lemma text_run_concat : forall cs p,
+  option_map (@concat N) (text_run p cs) = utf8_from p (concat cs).
+Proof.
+  induction cs as [|c cs IH]; intros p; cbn [text_run concat].
+  - unfold utf8_from. cbn [u_run option_map]. rewrite text_chunker_concat. reflexivity.
+  - unfold utf8_from. rewrite u_run_app. destruct (u_run p c) as [[p1 t]|]; [|reflexivity].
+    specialize (IH p1). unfold utf8_from in IH.
+    destruct (text_run p1 cs) as [ts|]; cbn [option_map] in *.
+    + destruct (u_run p1 (concat cs)) as [[p2 s2]|]; [|discriminate].
+      inversion IH as [IH']. rewrite concat_app, text_chunker_concat, IH', app_assoc. reflexivity.
+    + destruct (u_run p1 (concat cs)) as [[p2 s2]|]; [discriminate | reflexivity].
+Qed.
+
+Theorem iter_bytes_concat : forall cs, concat (iter_bytes cs) = concat cs.
+Proof.
+  induction cs as [|c cs IH]; [reflexivity|]. unfold iter_bytes in *. cbn [filter].
+  destruct c; cbn [nonemptyb concat app]; [exact IH | rewrite IH; reflexivity].
+Qed.
+
+(* Theorem 2: the text chunks produced for any chunking concatenate to the decoding of the whole stream
+   (in particular, well-formedness is a property of the stream, not of the chunking) *)
+Theorem utf8_chunk_independent : forall cs,
+  option_map (@concat N) (aiter_text cs) = utf8_decode (concat cs).
+Proof.
+  intros cs. unfold aiter_text. rewrite text_run_concat, iter_bytes_concat. reflexivity.
+Qed.
+
+(* ====================== D. the iterators depend on the stream only ====================== *)
+Theorem aiter_lines_stream : forall cs,
+  aiter_lines cs = option_map splitlines (utf8_decode (concat cs)).
+Proof.
+  intros cs. unfold aiter_lines. rewrite <- utf8_chunk_independent.
+  destruct (aiter_text cs) as [ts|]; cbn [option_map]; [rewrite ld_chunk_independent|]; reflexivity.
+Qed.
+
+Section Indep.
+  Variable py_int : str -> option Z.
+  Variable J : Type.
+  Variable json_loads : str -> option J.
+
+  Theorem lines_indep : forall cs1 cs2, concat cs1 = concat cs2 -> aiter_lines cs1 = aiter_lines cs2.
+  Proof. intros cs1 cs2 H. rewrite !aiter_lines_stream, H. reflexivity. Qed.
+
+  Theorem sse_indep : forall cs1 cs2, concat cs1 = concat cs2 -> iter_sse py_int cs1 = iter_sse py_int cs2.
+  Proof. intros cs1 cs2 H. unfold iter_sse. rewrite (lines_indep _ _ H). reflexivity. Qed.
+
+  Theorem sse_text_indep : forall cs1 cs2, concat cs1 = concat cs2 ->
+    iter_sse_events_text py_int cs1 = iter_sse_events_text py_int cs2.
+  Proof. intros cs1 cs2 H. unfold iter_sse_events_text. rewrite (sse_indep _ _ H). reflexivity. Qed.
+
+  Theorem ndjson_indep : forall cs1 cs2, concat cs1 = concat cs2 ->
+    iter_ndjson J json_loads cs1 = iter_ndjson J json_loads cs2.
+  Proof. intros cs1 cs2 H. unfold iter_ndjson. rewrite (lines_indep _ _ H). reflexivity. Qed.
+
+  (* in terms of the unsplit stream: what comes out for any chunking is what comes out for [whole] *)
+  Theorem sse_whole : forall cs, iter_sse py_int cs = iter_sse py_int [concat cs].
+  Proof. intros cs. apply sse_indep. cbn [concat]. rewrite app_nil_r. reflexivity. Qed.
+End Indep.
+
 (* ---------- refutations of the functional half on the faithful model ---------- *)
 Definition bs_F18a : list block := [[IData [97; 8232; 98]]].      (* data: a<U+2028>b *)
 Definition bs_F18b : list block := [[IData [32; 120]]].           (* data:  x  (payload " x") *)
